@@ -10,7 +10,7 @@ const char *behav_name(int b) {
 	static const char *n[] = {"honest", "foreign-id", "stale-gen", "other-hash", "broken-link", "lc-256", "lc-2^32", "low-level",
 		"wrong-agg-time", "wrong-pub-time", "bad-shape", "other-input", "altered-right-link", "status-err", "error-pdu",
 		"bad-mac", "other-key", "other-alg", "other-ver", "no-header", "no-mac", "truncated", "garbage-pdu", "conf-only",
-		"with-conf", "no-cal", "index-gap", "index-short", "index-prefix", "index-shape", "status-with-content", "extra-links", "no-agg-time", "response-plus-error", "v1-reflected-request"};
+		"with-conf", "no-cal", "index-gap", "index-short", "index-prefix", "index-shape", "status-with-content", "extra-links", "no-agg-time", "response-plus-error", "v1-reflected-request", "pub-shifted-no-agg-time"};
 	return (b >= 0 && b < B__COUNT) ? n[b] : "?";
 }
 
@@ -388,7 +388,7 @@ static bool v1_reflect(const ReqInfo &rq, const EndpointCfg &ep, const Tlv &resp
 
 std::string World::aggr_reply(const ReqInfo &rq, const EndpointCfg &ep, int behav, uint64_t subseed, ReplyMeta &meta) {
 	Rng rng(sim::mix(subseed, 0xa66));
-	if (behav == B_EXTRA_LINKS || behav == B_NO_AGG_TIME) behav = B_HONEST; // calendar-chain deviations of the extender
+	if (behav == B_EXTRA_LINKS || behav == B_NO_AGG_TIME || behav == B_PUB_SHIFTED_NO_AGG) behav = B_HONEST; // calendar-chain deviations of the extender
 	meta = ReplyMeta();
 	meta.behav = behav;
 	uint64_t id = rq.id;
@@ -491,6 +491,7 @@ std::string World::ext_reply(const ReqInfo &rq, const EndpointCfg &ep, int behav
 		if (ct == cp) { behav = B_HONEST; meta.behav = B_HONEST; } // nothing is omitted in effect
 		else cc.has_agg = false;
 	}
+	if (behav == B_PUB_SHIFTED_NO_AGG) { cc.has_agg = false; cc.pub = cp + 1 + rng.below(50); }
 	if (behav == B_EXTRA_LINKS) {
 		// still folds to some root and keeps input, times and (as a prefix) every genuine right link - only the shape betrays it
 		int n = 1 + (int)rng.below(3);
